@@ -7,6 +7,9 @@
 //   idx B<data> B<rgba palette>               ColorFormat::CI8.decode_indexed
 //   pal <w> <h> B<image data> B<palette data> CI8 image + RGB5A3 palette through a single-image TPL (Tpl::extract_textures)
 //   bigpal ...                                same, oracle-only
+//   cfdec <cf> B<data>                        ColorFormat::<cf>.decode, cf: 0 RGBA8, 1 RGB5A3, 2 CI8, other Unrecognized
+//   cfidx <cf> B<data> B<rgba palette>        ColorFormat::<cf>.decode_indexed
+//                                             (these two print the error variant: "err <Variant>")
 // Output: "ok B<rgba bytes>" | "err" ; panics are caught in main.rs ("PANIC").
 use crate::h_util::*;
 use mila::*;
@@ -76,8 +79,31 @@ pub fn tpl_single(w: u16, h: u16, image: &[u8], palette: &[u8]) -> Vec<u8> {
     f
 }
 
+fn color_format(tok: &str) -> ColorFormat {
+    match tok {
+        "0" => ColorFormat::RGBA8,
+        "1" => ColorFormat::RGB5A3,
+        "2" => ColorFormat::CI8,
+        _ => ColorFormat::Unrecognized,
+    }
+}
+
+fn show_cf(r: std::result::Result<Vec<u8>, TextureDecodeError>) -> String {
+    match r {
+        Ok(p) => format!("ok {}", show_b(&p)),
+        Err(TextureDecodeError::UnsupportedFormat) => "err UnsupportedFormat".to_string(),
+        Err(TextureDecodeError::UnalignedData) => "err UnalignedData".to_string(),
+        Err(TextureDecodeError::NotIndexed) => "err NotIndexed".to_string(),
+        Err(TextureDecodeError::NoPalette) => "err NoPalette".to_string(),
+        Err(TextureDecodeError::OutOfBoundsIndex) => "err OutOfBoundsIndex".to_string(),
+        Err(_) => "err Other".to_string(),
+    }
+}
+
 pub fn run(toks: &[&str]) -> String {
     match toks[0] {
+        "cfdec" => show_cf(color_format(toks[1]).decode(&parse_b(toks[2]))),
+        "cfidx" => show_cf(color_format(toks[1]).decode_indexed(&parse_b(toks[2]), &parse_b(toks[3]))),
         "color" | "bigcolor" => {
             let fmt: u32 = toks[1].parse().unwrap();
             let w: u16 = toks[2].parse().unwrap();
